@@ -20,8 +20,9 @@ func init() {
 
 func runC11(p *Program, r *Result) {
 	enc := r.anchor(pkgAge, "", "Encrypt")
-	wwl := r.anchor(pkgAge, "", "wrapWithLabels")
-	if enc == nil || wwl == nil {
+	// wrapWithLabels is spliced into Encrypt by the normal form: this recipient's labels are
+	// the operand of the label comparison that is not the loop-carried reference set
+	if enc == nil {
 		return
 	}
 	tb := p.TB(enc)
@@ -32,18 +33,29 @@ func runC11(p *Program, r *Result) {
 		return
 	}
 	loop := outer[0]
-	wcalls := callsTo(enc, wwl.String())
-	if len(wcalls) != 1 || !loop.inLoop(wcalls[0].Block()) {
-		r.Rule("R11.1", "labels of every recipient are compared with the first one's", 1)
-		r.Unk(enc.String(), "call:wrapWithLabels", "", "expected one wrapWithLabels call inside the recipient loop")
-		return
-	}
-	wcall := wcalls[0]
-	var labelsV ssa.Value // this recipient's labels
-	for _, ref := range *wcall.Value().Referrers() {
-		if ex, ok := ref.(*ssa.Extract); ok && ex.Index == 1 {
-			labelsV = ex
+	var wcall ssa.CallInstruction // the label comparison
+	var labelsV ssa.Value          // this recipient's labels
+	for _, c := range callsIn(enc) {
+		n := calleeName(c.Common())
+		if !(strings.HasSuffix(n, ".slicesEqual") || n == "slices.Equal") || len(c.Common().Args) != 2 || !loop.inLoop(c.Block()) {
+			continue
 		}
+		x, y := stripConv(c.Common().Args[0]), stripConv(c.Common().Args[1])
+		isRef := func(v ssa.Value) bool {
+			ph, ok := v.(*ssa.Phi)
+			return ok && ph.Block() == loop.Header
+		}
+		switch {
+		case isRef(x) && !isRef(y):
+			wcall, labelsV = c, y
+		case isRef(y) && !isRef(x):
+			wcall, labelsV = c, x
+		}
+	}
+	if wcall == nil || labelsV == nil {
+		r.Rule("R11.1", "labels of every recipient are compared with the first one's", 1)
+		r.Unk(enc.String(), "call:compare-labels", "", "no comparison of a loop-carried reference label set with this recipient's labels inside the recipient loop")
+		return
 	}
 
 	// ---- R11.1
@@ -109,8 +121,10 @@ func runC11(p *Program, r *Result) {
 					}
 				}
 				back = pa.ResolveAt(back, len(pa.Blocks)-2)
+				// this recipient's labels may themselves be a merge (the two wrap branches)
+				lvPath := pa.ResolveAt(labelsV, len(pa.Blocks)-2)
 				switch {
-				case first && stripConv(back) == labelsV:
+				case first && (stripConv(back) == labelsV || stripConv(back) == stripConv(lvPath)):
 				case !first && equal && back == ssa.Value(refPhi):
 				case first:
 					bad = "on the first iteration the reference is not set to this recipient's labels (path " + pa.String() + ")"
@@ -282,30 +296,28 @@ func runC11(p *Program, r *Result) {
 	}
 
 	// ---- R11.5
-	r.Rule("R11.5", "wrapWithLabels prefers RecipientWithLabels, otherwise Wrap with no labels", 2)
+	r.Rule("R11.5", "a recipient with labels is wrapped through WrapWithLabels, any other through Wrap with no labels", 2)
 	{
-		wtb := p.TB(wwl)
+		// this recipient's labels and stanzas as values: merges over the two branches
+		lt := short(tb.Term(labelsV).String())
+		wantL := specRecipe(r, "Encrypt.labels")
+		r.Check(lt == wantL, enc.String(), "labels-branch", "", lt, "this recipient's labels are "+lt+"\n   want "+wantL)
+		// the plain branch runs only when the type assertion failed, the labelled one only when it held
 		okA, okB := false, false
-		for _, ret := range returnsOf(wwl) {
-			facts := wtb.FactsAt(ret.Block())
-			s0 := short(wtb.Term(ret.Results[0]).String())
-			s1 := short(wtb.Term(ret.Results[1]).String())
-			_, isWL := findFact(facts, func(a Atom) bool {
-				return a.Kind == "bool" && a.Pol && short(a.X.String()) == "Assert[age.RecipientWithLabels](P1).1"
-			})
-			_, notWL := findFact(facts, func(a Atom) bool {
-				return a.Kind == "bool" && !a.Pol && short(a.X.String()) == "Assert[age.RecipientWithLabels](P1).1"
-			})
-			if isWL && s0 == "invoke (age.RecipientWithLabels).WrapWithLabels(Assert[age.RecipientWithLabels](P1).0, P2).0" &&
-				s1 == "invoke (age.RecipientWithLabels).WrapWithLabels(Assert[age.RecipientWithLabels](P1).0, P2).1" {
-				okA = true
-			}
-			if notWL && s0 == "invoke (age.Recipient).Wrap(P1, P2).0" && (s1 == "nil" || isNilConst(ret.Results[1])) {
-				okB = true
+		for _, c := range callsIn(enc) {
+			facts := tb.FactsAt(c.Block())
+			switch calleeName(c.Common()) {
+			case "invoke (filippo.io/age.RecipientWithLabels).WrapWithLabels":
+				_, okA = findFact(facts, func(a Atom) bool {
+					return a.Kind == "bool" && a.Pol && strings.HasPrefix(short(a.X.String()), "Assert[age.RecipientWithLabels](") && strings.HasSuffix(a.X.String(), ".1")
+				})
+			case "invoke (filippo.io/age.Recipient).Wrap":
+				_, okB = findFact(facts, func(a Atom) bool {
+					return a.Kind == "bool" && !a.Pol && strings.HasPrefix(short(a.X.String()), "Assert[age.RecipientWithLabels](") && strings.HasSuffix(a.X.String(), ".1")
+				})
 			}
 		}
-		r.Check(okA, wwl.String(), "labels-branch", "", "returns r.WrapWithLabels(fileKey) when implemented", "the RecipientWithLabels branch does not return WrapWithLabels' stanzas and labels")
-		r.Check(okB, wwl.String(), "plain-branch", "", "returns Wrap's stanzas with nil labels otherwise", "the plain branch does not return (Wrap(fileKey), nil labels)")
+		r.Check(okA && okB, enc.String(), "plain-branch", "", "WrapWithLabels under the successful assertion, Wrap otherwise", "the choice between WrapWithLabels and Wrap does not follow the RecipientWithLabels type assertion")
 	}
 
 	// ---- R11.6
